@@ -76,10 +76,18 @@ def table(rng, k, kind=None):
 def message(rng, max_len, kind=None):
     """(bits list, class tag)."""
     kind = kind or rng.choice(["empty", "zeros", "ones", "leadzero", "trail1", "lead1", "random", "random", "random",
-                               "pow2m1", "pow2p1", "len1", "odd", "len2", "len3"])
+                               "pow2m1", "pow2p1", "len1", "odd", "len2", "len3", "dec-round"])
     L = rng.randint(1, max_len)
     if kind == "empty":
         return [], kind
+    if kind == "dec-round":
+        # values d * 10^e (+ small): the decimal-string arithmetic sees long runs of 0 / 9 and exact limb boundaries
+        v = rng.choice([1, 2, 5, 8, 9]) * 10 ** rng.randint(15, 45) + rng.choice([0, 0, 1, -1, 2])
+        bits = [int(c) for c in bin(v)[2:]]
+        return [0] * rng.choice([0, 0, 1, 5]) + bits, kind
+    if kind == "long":
+        n = rng.randint(2150, 2500)
+        return [rng.randint(0, 1) for _ in range(n)], kind
     if kind == "len1":
         return [rng.randint(0, 1)], kind
     if kind == "len2":
@@ -138,3 +146,18 @@ def apply_edits(s, edits):
 
 def random_dna(rng, n):
     return "".join(rng.choice(NUC) for _ in range(n))
+
+
+def limb_number(rng, max_limbs=8):
+    """A decimal string built from aligned blocks ('limbs') of width b = 1..20 whose products with a digit m land exactly
+    on, just below or just above 10^b: the inputs on which block-wise (machine-word) decimal arithmetic gets a carry
+    wrong, whatever limb width it uses.  Returns the string (canonical, no leading zeros)."""
+    b = rng.choice([1, 2, 3, 4, 8, 9, 9, 9, 10, 15, 16, 17, 18, 18, 19, 20])
+    top = 10 ** b
+    m = rng.randint(2, 9)
+    pool = [0, 0, top - 1, top - 1, top // m, top // m + 1, (top - 1) // m, -(-top // m), top // 2, top // 4, top // 5, top // 8,
+            top - m, 1, rng.randrange(top), rng.randrange(top)]
+    limbs = [rng.choice(pool) % top for _ in range(rng.randint(2, max_limbs))]
+    s = "".join(str(x).zfill(b) for x in limbs).lstrip("0")
+    lead = rng.choice(["", "", str(rng.randint(1, 9)), str(rng.randrange(1, top))])
+    return (lead + s) if (lead + s) else "0"
